@@ -173,13 +173,16 @@ Qed.
 Lemma panswer_mono : forall K K' d, kle K K' ->
   forall f f' rq a, f <= f' -> panswer K d f rq = Some a -> panswer K' d f' rq = Some a.
 Proof.
-  intros K K' d HK f f' rq a Hle H. destruct rq as [c q|m]; simpl in *.
+  intros K K' d HK f f' rq a Hle H. destruct rq as [c q|m|c m]; simpl in *.
   - destruct (pexpand K (pscope K f) c first_line) as [es|] eqn:E; [|discriminate].
     rewrite (@pexpand_mono K K' (pscope K f) (pscope K' f') HK (fun m es H => pscope_mono HK m Hle H) _ _ _ E).
     eapply pquery_mono; eauto.
   - destruct HK as [Hex Hct]. destruct (k_ex K m) as [[|]|] eqn:E; [| |discriminate]; rewrite (Hex _ _ E); [|exact H].
     destruct (pscope K f m) as [es|] eqn:E2; [|discriminate].
     rewrite (pscope_mono (conj Hex Hct) m Hle E2). exact H.
+  - destruct (pexpand K (pscope K f) c first_line) as [es|] eqn:E; [|discriminate].
+    rewrite (@pexpand_mono K K' (pscope K f) (pscope K' f') HK (fun m es H => pscope_mono HK m Hle H) _ _ _ E).
+    destruct HK as [Hex Hct]. destruct (k_ex K m) as [[|]|] eqn:E2; [| |discriminate]; rewrite (Hex _ _ E2); exact H.
 Qed.
 
 (* the reference answer does not depend on the fuel, once there is enough of it *)
@@ -882,7 +885,24 @@ Lemma serve_ok : forall d f st rq st' r,
   Inv d st -> serve f d st rq = (st', r) ->
   Inv d st' /\ ext st st' /\ forall a, r = Ok a -> exists f', panswer (know_st st') d f' rq = Some a.
 Proof.
-  intros d f st rq st' r HI H. destruct rq as [c q|m]; simpl in H.
+  intros d f st rq st' r HI H. destruct rq as [c q|m|c m]; simpl in H.
+  3:{ destruct (expand d (scope_of f d) st c first_line) as [st1 r1] eqn:E1.
+      destruct (expand_ok _ _ (scope_of_ok d f) _ _ _ _ _ HI E1) as (I1 & X1 & R1 & P1).
+      destruct r1 as [es| |].
+      2:{ inversion H; subst. split; [exact I1|]. split; [exact X1|]. intros a He. discriminate. }
+      2:{ inversion H; subst. split; [exact I1|]. split; [exact X1|]. intros a He. discriminate. }
+      destruct (P1 _ eq_refl) as [f1 Hf1].
+      destruct (get_module d st1 m) as [st2 og] eqn:E2.
+      destruct (get_module_ok _ _ _ _ _ I1 E2) as (I2 & X2 & R2 & P2).
+      inversion H; subst. split; [exact I2|]. split; [eapply ext_trans; eauto|].
+      intros a He. inversion He; subst.
+      pose proof (Inv_kle d _ _ X2 I2) as K12.
+      exists f1. cbn [panswer].
+      rewrite (@pexpand_mono _ _ (pscope (know_st st1) f1) (pscope (know_st st') f1)
+                 K12 (fun m0 es0 H0 => pscope_mono K12 m0 (Nat.le_refl f1) H0) _ _ _ Hf1).
+      destruct og as [g|].
+      - rewrite (know_ex_cached _ _ _ P2). reflexivity.
+      - rewrite P2. reflexivity. }
   - destruct (expand d (scope_of f d) st c first_line) as [st1 r1] eqn:E1.
     destruct (expand_ok _ _ (scope_of_ok d f) _ _ _ _ _ HI E1) as (I1 & X1 & R1 & P1).
     destruct r1 as [es| |].
@@ -1402,7 +1422,14 @@ Qed.
 Lemma serve_complete : forall d f st rq a,
   Inv d st -> ref_answer f d rq = Some a -> exists st', serve f d st rq = (st', Ok a).
 Proof.
-  intros d f st rq a HI H. unfold ref_answer in H. destruct rq as [c q|m]; cbn [panswer] in H; cbn [serve].
+  intros d f st rq a HI H. unfold ref_answer in H. destruct rq as [c q|m|c m]; cbn [panswer] in H; cbn [serve].
+  3:{ destruct (pexpand (know_disk d) (pscope (know_disk d) f) c first_line) as [es|] eqn:Ee; [|discriminate].
+      destruct (expand_complete d _ _ (scope_of_ok d f) (scope_of_complete d f) c first_line st es HI Ee) as [st1 E1].
+      rewrite E1.
+      destruct (expand_ok _ _ (scope_of_ok d f) _ _ _ _ _ HI E1) as (I1 & _).
+      destruct (get_module d st1 m) as [st2 og] eqn:E2.
+      pose proof (get_module_disk _ _ _ _ _ I1 E2) as Hk. rewrite Hk in H.
+      destruct og as [g|]; inversion H; subst; eauto. }
   - destruct (pexpand (know_disk d) (pscope (know_disk d) f) c first_line) as [es|] eqn:Ee; [|discriminate].
     destruct (expand_complete d _ _ (scope_of_ok d f) (scope_of_complete d f) c first_line st es HI Ee) as [st1 E1].
     rewrite E1.
@@ -1649,7 +1676,11 @@ Section Total.
 
   Theorem ref_answer_total : forall rq, exists a, ref_answer (R + 1) d rq = Some a.
   Proof.
-    intros rq. unfold ref_answer. fold K. destruct rq as [c q|m]; cbn [panswer].
+    intros rq. unfold ref_answer. fold K. destruct rq as [c q|m|c m]; cbn [panswer].
+    3:{ assert (Ht : targets_below R c) by (intros b m' _ _ Ho; apply HR; exact Ho).
+        destruct (pexpand_total (pscope K (R + 1)) R c first_line Ht) as (es & He & Hk).
+        { intros m' Ho Hlt. destruct (pscope_total (R + 1) m' Ho ltac:(lia)) as (es & He & _). eauto. }
+        rewrite He. rewrite kd_ex. destruct (on_disk d m); eauto. }
     - assert (Ht : targets_below R c) by (intros b m' _ _ Ho; apply HR; exact Ho).
       destruct (pexpand_total (pscope K (R + 1)) R c first_line Ht) as (es & He & Hk).
       { intros m' Ho Hlt. destruct (pscope_total (R + 1) m' Ho ltac:(lia)) as (es & He & _). eauto. }
